@@ -4,6 +4,10 @@ import json, os, sys
 HERE = os.path.dirname(os.path.abspath(__file__))
 
 CHECKS = {
+ 'C14': dict(technique='runtime monitor: documented shape-rule table + numpy on plain arrays applied to every MathArray operator call (binary, reflected, in-place), every formula-string evaluation with arrays, and MatrixGrader(negative_powers=False) verdicts; operand fingerprints before/after',
+             text='Exploration by runtime monitoring: all ordered operand pairs of the shape lattice (scalars incl. zero, vectors 2-4, matrices up to 4x4, 3-axis tensors; real and complex) x five operators x binary/in-place/reflected forms, exponent classes x negative-power switch, the same pairs through formula strings, triple vector products, and grader calls with negative powers disabled; every outcome is compared with the rule table (value vs error, value equality, student-facing error class, operands unchanged).',
+             note='Trusted: rule table transcribed from the statement (R8 for one-element results); numpy on plain ndarrays as value reference; ZeroDivision/Overflow at raw operator level are accepted as errors because the evaluator recasts them.',
+             ref='DESIGN.md section 4, C14'),
  'C10': dict(technique='runtime monitor: name sets known by construction vs parse()/evaluator() metadata; exhaustive event-sequence differential of the shared parser against freshly constructed parsers; invariant hook on MathParser.parse (scratch sets empty, no aliasing, cached sets immutable)',
              text='Exploration by runtime monitoring: (A) reported variable/function/suffix sets for thousands of generated derivations and 40 hand-listed confusables; (B) all event sequences of length <=3 (<=4 thorough) over 12 strings (valid, whitespace variants, unbalanced, unparsable after names were seen, undefined names, RecursionError-deep) x {parse, eval in two scopes} on the process-wide parser, each step compared with a fresh MathParser, plus random sequences up to length 64; (C) an invariant checked at a hook after every parse return/raise.',
              note='Trusted: generator bookkeeping of used names; a fresh MathParser as the history-free reference; the hook is a pass-through wrapper on the class attribute.',
